@@ -188,6 +188,25 @@ ADDED5 = {
 for _k, _v in ADDED5.items():
     CLAIMED[_k]['text'] += ' Later: ' + _v
 
+ADDED6 = {
+ 'C01': 'R12: every statement executes where it is written (binder a temporary of its full expression); R13: every UPDATE of a 1.x secondary table (MetaData, MetaDataInteger, PerformanceData) is preceded by an INSERT into it or followed by a rows_modified() test.',
+ 'C02': 'L8: decoder and encoder draw the line of every count test at the same count (rule S9 of C03, named constants resolved).',
+ 'C03': 'S9 now compares the rejection sets of the count tests of decoder and encoder and reports a count one side refuses and the other writes.',
+ 'C06': 'G2: the redundant-copy exemption applies only when getter and snapshot share a location; G7: row guarantee for UPDATEs of the 1.x secondary tables (as C01-R13).',
+ 'C08': 'K9: the function that inserts into PlaylistEntity links the previous tail with last_insert_rowid() read after the INSERT and finds that tail by its sentinel.',
+ 'C09': 'P4 evaluates transaction guards with several bool members, member predicates and the autocommit state at construction; P5: chain listings are restricted by the group key alone; P6 = K9.',
+ 'C10': 'N4 models std::exchange in the guard.',
+ 'C11': 'W13 = C08-K9 (one entry chain per list).',
+ 'C12': 'X6: create_database / create_temporary_database hand every enumerator with a creator to the library class of its generation (rule of C13-Y4 over all enumerators, repository constants resolved).',
+ 'C13': 'Y1 follows the version components through callees: arithmetic on them (a packed version number) is searched for colliding triples and otherwise not accepted as exhaustive; Y8: no handler on the way from a loader to detect_schema / detect_is_database2 catches unsupported_database / database_not_found (or a base) without rethrowing.',
+ 'C16': 'E7: no user-written destructor (transaction guard excepted) reaches a statement with an effect on the database; acting pragmas without argument (optimize, wal_checkpoint, incremental_vacuum, unknown names) are effects.',
+ 'C17': 'V10: the sqlite_master listing behind every master-list comparison selects by type alone; the block interpreter evaluates concatenated object names of data-driven blocks.',
+ 'C18': 'B13: every statement executes where it is written, so that the rows_modified() test behind it judges that statement.',
+ 'C15': 'U1 accepts a precondition established by every caller of a file-local helper, facts inside lambdas written as call arguments, named end() / size() aliases; U2 follows an index held in a named local; predicate helpers are inlined into guard facts.',
+}
+for _k, _v in ADDED6.items():
+    CLAIMED[_k]['text'] += ' Round 5: ' + _v
+
 NOT_APPLICABLE = {
  'C19': 'numerical result of integer/floating arithmetic over all inputs (ceiling division, quantisation, minimality, monotonicity): no structural clause beyond the division guard, which C15-U6 covers; a sound decision needs an arithmetic solver or proof (different family)',
  'C20': 'floating-point numerical behaviour of beat-grid extrapolation (bracketing, tempo preservation, idempotence up to rounding); only the iterator arithmetic is shape-visible and is covered by C15-U3',
